@@ -87,6 +87,10 @@ func c06Matrix() []c06Case {
 						if rk != val.KAbsent {
 							out = append(out, c06Case{Cond: &refmodel.Cond{Op: "cmp", Cmp: cmp, Args: []refmodel.Operand{pathL, valR}}, Item: mkItem(lv, val.Absent()), Values: val.Item{":r": rv}, Tag: "cmp-pv"})
 						}
+						if lk != val.KAbsent {
+							// the request's value FIRST, the attribute second (":now >= expires"): lv cmp rv all the same
+							out = append(out, c06Case{Cond: &refmodel.Cond{Op: "cmp", Cmp: cmp, Args: []refmodel.Operand{valR, pathL}}, Item: mkItem(rv, val.Absent()), Values: val.Item{":r": lv}, Tag: "cmp-vp"})
+						}
 						if cmp == "=" {
 							// the same operand pairs as members / bounds / second arguments given as PATHS
 							it := mkItem(lv, rv)
@@ -113,6 +117,7 @@ func c06Matrix() []c06Case {
 				cmp := []string{"<", "<=", ">", ">="}[(i+j)%4]
 				if (i+j+ti)%2 == 0 {
 					out = append(out, c06Case{Cond: &refmodel.Cond{Op: "cmp", Cmp: cmp, Args: []refmodel.Operand{pathL, valR}}, Item: mkItem(lv, val.Absent()), Values: val.Item{":r": rv}, Tag: "order-pv"})
+					out = append(out, c06Case{Cond: &refmodel.Cond{Op: "cmp", Cmp: cmp, Args: []refmodel.Operand{valR, pathL}}, Item: mkItem(rv, val.Absent()), Values: val.Item{":r": lv}, Tag: "order-vp"})
 				} else {
 					out = append(out, c06Case{Cond: &refmodel.Cond{Op: "cmp", Cmp: cmp, Args: []refmodel.Operand{pathL, pathR}}, Item: mkItem(lv, rv), Values: val.Item{}, Tag: "order-pp"})
 				}
